@@ -162,6 +162,12 @@ class Prop:
                 t = gen.TYPE_OF[cname][0]
                 ops.append('encode_dict %s %s %s;type=i:%d' % (talker.hex() or '-', chan.hex() or '-', kw, t))
                 meta.append(('encode_dict', talker, chan, None, cname))
+        # ... and dictionaries without a usable message type
+        for cname, kw in some[:1]:
+            for tkw in ('', ';type=i:99', ';type=i:-1', ';type=i:28', ';type=s:%s' % b'abc'.hex(), ';msg_type=i:64'):
+                kw2 = ';'.join(x for x in kw.split(';') if not x.startswith('msg_type=')) + tkw
+                ops.append('encode_dict %s %s %s' % (b'AIVDM'.hex(), b'A'.hex(), kw2))
+                meta.append(('encode_dict', b'AIVDM', b'A', None, cname))
         outs = ctx.corr(ops, impl.step, 'refused-requests', nontrivial=lambda l, o: o.startswith('ERR'))
         for (cmd, talker, chan, pl, extra), o, op in zip(meta, outs, ops):
             ctx.count('refused:' + cmd)
